@@ -135,7 +135,7 @@ func (l *Lexer) NextToken() *token.Token {
 		case isDigit(ch):
 			return token.Intern(l.readNumber(ch))
 		default:
-			return token.Intern(token.ILLEGAL, string(ch))
+			return token.Intern(token.ILLEGAL, string([]byte{ch})) // the byte itself, not the rune of that value.
 		}
 	}
 }
